@@ -213,9 +213,15 @@ class MEIExporter:
                 for onset in unique_onsets:
                     # group by start time
                     notes = voice_notes[note_start_times == onset]
+                    # grace notes precede the note or chord they embellish
+                    # and are never members of its chord
+                    grace_notes = [n for n in notes if isinstance(n, spt.GraceNote)]
+                    notes = [n for n in notes if not isinstance(n, spt.GraceNote)]
+                    for grace_note in grace_notes:
+                        self._handle_note_or_rest(grace_note, voice_el)
                     if len(notes) > 1:
                         self._handle_chord(notes, voice_el)
-                    else:
+                    elif len(notes) == 1:
                         self._handle_note_or_rest(notes[0], voice_el)
 
         self._handle_tuplets(measure_el, start=measure.start.t, end=measure.end.t)
